@@ -413,6 +413,20 @@ class RunnerProxy(object):
                                None if act is None else self.rec.fid[(t.name, act.name)]])
 
     def send(self, ctl):
+        snap = getattr(self.rec, "snapshot", None)
+        if snap is not None and ctl in (1, 4) and not self.rec.quiet:     # START / READY: oracle record
+            entry = ["ctl", self.rec.tick, self.tasker.name, ctl, self.tasker.status, snap(),
+                     len(self.rec.trace), None, None]
+            self.rec.oracle.append(entry)
+            try:
+                status = self.gen.send(ctl)
+            except StopIteration:
+                self._log(ctl, None)
+                raise
+            entry[7] = len(self.rec.trace)
+            entry[8] = status
+            self._log(ctl, status)
+            return status
         try:
             status = self.gen.send(ctl)
         except StopIteration:
@@ -432,6 +446,8 @@ class Recorder(object):
         self.nrec = 0
         self.crash_at = crash_at
         self.fid = dict(ix.fid)
+        self.oracle = []
+        self.quiet = 0
 
     def record(self, message):
         tag = int(message.strip()[1:])
@@ -442,6 +458,158 @@ class Recorder(object):
             if self.crash_at[1] == "KbdInt":
                 raise KeyboardInterrupt()
             raise Crash("injected")
+
+
+def install_oracle(rec, house):
+    """implementation-side oracle log (rec.oracle; never compared with the model): the harness wraps, in the
+    check process only, Transiter.action, Suspender.action, Framer.enterAll/exitAll, Frame.enter,
+    CompleteDone.action and NeedDone/NeedDoneAux.action and records, at the moment of every attempt, an
+    independent evaluation of every frame's before-enter needs, every framer's active outline, owner frame
+    and done flag.  lib/kprops.py evaluates the statements of C04/C08/C09/C10 on that log.
+    returns the function that removes the wrappers"""
+    from ioflo.base import framing, acting, needing, completing
+    framers = list(house.framers)
+    rec.oracle = []
+    rec.quiet = 0
+    depth = [0]
+
+    def snapshot():
+        rec.quiet += 1
+        try:
+            S = {}
+            for t in framers:
+                g = {}
+                for f in t.frameNames.values():
+                    ok = True
+                    for n in f.beacts:
+                        if not n():
+                            ok = False
+                    g[f.name] = ok
+                m = getattr(t, "main", None)
+                S[t.name] = [g, [f.name for f in t.actives], None if not m else [m.framer.name, m.name],
+                             bool(t.done), float(t.elapsed).hex(), int(t.recurred)]
+            return S
+        finally:
+            rec.quiet -= 1
+
+    rec.snapshot = snapshot
+
+    def needs_ok(needs):
+        rec.quiet += 1
+        try:
+            ok = True
+            for n in needs:
+                if not n():
+                    ok = False
+            return ok
+        finally:
+            rec.quiet -= 1
+
+    def after(t):
+        return [[f.name for f in t.actives], float(t.elapsed).hex(), int(t.recurred)]
+
+    saved = []
+
+    def patch(cls, name, make):
+        orig = cls.__dict__[name]
+        saved.append((cls, name, orig))
+        setattr(cls, name, make(orig))
+
+    def mk_transit(orig):
+        def action(self, needs, near, far, human, **kw):
+            if rec.quiet:
+                return orig(self, needs=needs, near=near, far=far, human=human, **kw)
+            S = snapshot()
+            nk = needs_ok(needs)
+            p0 = len(rec.trace)
+            entry = ["transit", rec.tick, near.framer.name, near.name, far.name, S, nk, p0, None, None, None]
+            rec.oracle.append(entry)
+            r = orig(self, needs=needs, near=near, far=far, human=human, **kw)
+            entry[8] = len(rec.trace)
+            entry[9] = r is not None
+            entry[10] = after(near.framer)
+            entry.append(len(rec.oracle))
+            return r
+        return action
+
+    def mk_suspend(orig):
+        def action(self, needs, main, aux, human, **kw):
+            if rec.quiet:
+                return orig(self, needs=needs, main=main, aux=aux, human=human, **kw)
+            S = snapshot()
+            nk = needs_ok(needs)
+            p0 = len(rec.trace)
+            entry = ["suspend", rec.tick, main.framer.name, main.name, aux.name, S, nk, p0, None, None, None]
+            rec.oracle.append(entry)
+            r = orig(self, needs=needs, main=main, aux=aux, human=human, **kw)
+            entry[8] = len(rec.trace)
+            entry[9] = bool(r)
+            entry[10] = after(main.framer)
+            entry.append(len(rec.oracle))
+            return r
+        return action
+
+    def mk_enterAll(orig):
+        def enterAll(self):
+            top = depth[0] == 0
+            rec.oracle.append(["enterAll", rec.tick, self.name, top, snapshot() if top else None, len(rec.trace)])
+            return orig(self)
+        return enterAll
+
+    def mk_exitAll(orig):
+        def exitAll(self, abort=False):
+            r = orig(self, abort=abort)
+            rec.oracle.append(["exitAll", rec.tick, self.name, bool(abort), len(rec.trace)])
+            return r
+        return exitAll
+
+    def mk_frame_enter(orig):
+        def enter(self):
+            depth[0] += 1
+            try:
+                return orig(self)
+            finally:
+                depth[0] -= 1
+        return enter
+
+    def mk_done(orig):
+        def action(self, taskers, **kw):
+            for t in taskers:
+                rec.oracle.append(["done", rec.tick, t.name, len(rec.trace)])
+            return orig(self, taskers=taskers, **kw)
+        return action
+
+    def mk_needdone(orig):
+        def action(self, tasker, **kw):
+            r = orig(self, tasker=tasker, **kw)
+            if not rec.quiet:
+                rec.oracle.append(["needdone", rec.tick, tasker.name, bool(r), len(rec.trace)])
+            return r
+        return action
+
+    def mk_needdoneaux(orig):
+        def action(self, tasker, framer, frame, **kw):
+            r = orig(self, tasker=tasker, framer=framer, frame=frame, **kw)
+            if not rec.quiet:
+                who = tasker if tasker in ("any", "all") else tasker.name
+                rec.oracle.append(["needdoneaux", rec.tick, who, framer.name if framer else None,
+                                   frame.name if frame else None, bool(r), len(rec.trace)])
+            return r
+        return action
+
+    patch(acting.Transiter, "action", mk_transit)
+    patch(acting.Suspender, "action", mk_suspend)
+    patch(framing.Framer, "enterAll", mk_enterAll)
+    patch(framing.Framer, "exitAll", mk_exitAll)
+    patch(framing.Frame, "enter", mk_frame_enter)
+    patch(completing.CompleteDone, "action", mk_done)
+    patch(needing.NeedDone, "action", mk_needdone)
+    patch(needing.NeedDoneAux, "action", mk_needdoneaux)
+
+    def restore():
+        for cls, name, orig in reversed(saved):
+            setattr(cls, name, orig)
+    return restore
 
 
 def _alarm(signum, frame):
@@ -461,6 +629,7 @@ def run_impl(prog, crash_at, workdir, name="prog", limit_s=20, maxticks=60):
         f.write(render_flo(prog))
     rec = Recorder(ix, crash_at)
     orig_printer = acting.Printer.action
+    restore_oracle = lambda: None
 
     def action(self, message, **kw):
         rec.record(message)
@@ -499,6 +668,7 @@ def run_impl(prog, crash_at, workdir, name="prog", limit_s=20, maxticks=60):
             return orig_change(stamp)
 
         store.changeStamp = changeStamp
+        restore_oracle = install_oracle(rec, house)
         excn = False
         try:
             sk.run()
@@ -517,7 +687,7 @@ def run_impl(prog, crash_at, workdir, name="prog", limit_s=20, maxticks=60):
             x = sh.value if sh is not None else 0
             vals.append(int(x) if x is not None else 0)
         status = [taskers[fm["name"]].status for fm in prog["framers"]]
-        return {"trace": rec.trace, "vars": vals, "status": status, "excn": excn}
+        return {"trace": rec.trace, "vars": vals, "status": status, "excn": excn, "oracle": rec.oracle}
     except Hang:
         return {"error": "Hang", "msg": "no termination within %ss" % limit_s, "phase": "run",
                 "trace": rec.trace[-20:]}
@@ -525,6 +695,7 @@ def run_impl(prog, crash_at, workdir, name="prog", limit_s=20, maxticks=60):
         signal.setitimer(signal.ITIMER_REAL, 0)
         signal.signal(signal.SIGALRM, old)
         acting.Printer.action = orig_printer
+        restore_oracle()
 
 
 # ---------------------------------------------------------------------------
@@ -940,4 +1111,21 @@ def scenarios(tick=0.125):
             {"name": "m1", "sched": "active", "order": "back", "period": 0.0, "first": "f0", "frames": [
                 _fr("f0", preacts=[["go", [[kind, 0, "me", None]], "f1"]]),
                 _fr("f1", beacts=[["var", 1, ">=", 1]])]}]})))
+    # S14: a plain auxiliary that marks itself done in the enter context of its first frame is observed as done
+    # by the any / all / named done-needs of its main frame, each time the main frame is entered again
+    out.append(("done-on-entry-observed", _tagged({"tick": tick, "nvars": 1, "framers": [
+        {"name": "m0", "sched": "active", "order": "front", "period": 0.0, "first": "f0", "frames": [
+            _fr("f0", auxes=["a1", "a2"], preacts=[["go", [["doneaux", "all", "f0"]], "f1"],
+                                                   ["go", [["doneaux", "any", "f0"], ["recurred", ">=", 1]], "f2"]]),
+            _fr("f1", enacts=[["rec", 910]]),
+            _fr("f2", enacts=[["rec", 911]], preacts=[["go", [["done", "a1"], ["recurred", ">=", 1]], "f0"]])]},
+        {"name": "a1", "sched": "aux", "order": "mid", "period": 0.0, "first": "x", "frames": [
+            _fr("x", enacts=[["done", ["me"]]])]},
+        {"name": "a2", "sched": "aux", "order": "mid", "period": 0.0, "first": "x", "frames": [
+            _fr("x", preacts=[["go", [["recurred", ">=", 4]], "y"]]), _fr("y", enacts=[["done", ["me"]]])]},
+        {"name": "m1", "sched": "active", "order": "back", "period": 0.0, "first": "f0", "frames": [
+            _fr("f0", auxes=["b1"], preacts=[["go", [["doneaux", "b1", "f0"], ["doneaux", "all", "f0"]], "f1"]]),
+            _fr("f1", enacts=[["rec", 912]], preacts=[["go", [["recurred", ">=", 2]], "f0"]])]},
+        {"name": "b1", "sched": "aux", "order": "mid", "period": 0.0, "first": "x", "frames": [
+            _fr("x", enacts=[["done", ["me"]]])]}]})))
     return out
